@@ -493,7 +493,7 @@ class _Num(Sym):
         a, b = _coerce2(self, o)
         if rev:
             a, b = b, a
-        if cur().decide(b == 0):
+        if not cur().nofork and cur().decide(b == 0):    # specification-level division (contracts) does not fork
             raise ZeroDivisionError("division by zero")
         if a.sort() == z3.IntSort():
             a, b = z3.ToReal(a), z3.ToReal(b)
@@ -510,7 +510,7 @@ class _Num(Sym):
             a, b = b, a
         if a.sort() != z3.IntSort():
             raise Unsupported("floor division / modulo of reals")
-        if cur().decide(b == 0):
+        if not cur().nofork and cur().decide(b == 0):
             raise ZeroDivisionError("integer division or modulo by zero")
         q = py_floordiv(a, b)
         return wrap_expr(a - b * q if mod else q)
